@@ -174,8 +174,20 @@ func (fr *Frame) ghostCall(i *ssa.Call, kind string, args []Val, st *State, g Te
 	switch kind {
 	case "Invariant", "RangeInvariant", "Decreases":
 		fr.registerGhost(i, kind, st)
+	case "SameFn":
+		var ts []Term
+		for _, a := range i.Call.Args {
+			v := a
+			if mi, ok := v.(*ssa.MakeInterface); ok {
+				v = mi.X
+			}
+			ts = append(ts, fr.term(v, st))
+		}
+		fr.regs[i] = TV{T: Eq(ts[0], ts[1])}
+	case "B2I":
+		fr.regs[i] = TV{T: Ite(x.t(args[0], st), IntLit(1), IntLit(0))}
 	case "Assert":
-		clo, ok := args[1].(CloV)
+		clo, ok := fr.closureArg(i.Call.Args[1], st)
 		if !ok {
 			x.unsupported("%s: Assert argument is not a closure", fr.fn)
 			return
@@ -187,7 +199,7 @@ func (fr *Frame) ghostCall(i *ssa.Call, kind string, args []Val, st *State, g Te
 		t := fr.evalClosure(&clo, nil, st, g)
 		x.assert(g, fr.oname("assert/"+label), t, x.posOf(i.Pos()), "ghost assertion")
 	case "Assume":
-		clo, ok := args[0].(CloV)
+		clo, ok := fr.closureArg(i.Call.Args[0], st)
 		if !ok {
 			return
 		}
@@ -199,7 +211,7 @@ func (fr *Frame) ghostCall(i *ssa.Call, kind string, args []Val, st *State, g Te
 	case "Forall", "Exists":
 		lo, _ := x.termOf(args[0], st)
 		hi, _ := x.termOf(args[1], st)
-		clo, ok := args[2].(CloV)
+		clo, ok := fr.closureArg(i.Call.Args[2], st)
 		if !ok {
 			x.unsupported("%s: quantifier body is not a closure literal", fr.fn)
 			fr.regs[i] = TV{T: x.fresh("q", SBool)}
@@ -444,6 +456,10 @@ func clauseLabel(cl *Clause, n int) string {
 }
 
 func (fr *Frame) callContract(i *ssa.Call, callee *ssa.Function, c *Contract, args []Val, st *State, g Term) {
+	fr.applyContract(i, callee, c, args, st, g, true)
+}
+
+func (fr *Frame) applyContract(i *ssa.Call, callee *ssa.Function, c *Contract, args []Val, st *State, g Term, check bool) {
 	x := fr.x
 	e := x.eng
 	m := e.mods[callee]
@@ -518,11 +534,14 @@ func (fr *Frame) callContract(i *ssa.Call, callee *ssa.Function, c *Contract, ar
 	}
 	// requires
 	for n, cl := range c.clauses("requires") {
+		if !check {
+			break
+		}
 		t := fr.evalClause(callee, cl, params, st, g)
 		x.assert(g, fmt.Sprintf("%spre@%s#%d/%s", site, callee.Name(), k, clauseLabel(cl, n)), t, x.posOf(i.Pos()), "precondition of "+callee.Name()+": "+cl.Expr)
 	}
 	// termination of recursion
-	if e.sameSCC(x.root, callee) && !fr.ghost {
+	if check && e.sameSCC(x.root, callee) && !fr.ghost {
 		decs := c.clauses("decreases")
 		if len(decs) == 0 || len(x.rootDec) == 0 {
 			x.assert(g, fmt.Sprintf("%sdecr@%s#%d/missing-variant", site, callee.Name(), k), TFalse, x.posOf(i.Pos()), "recursive call without decreases clause")
@@ -531,10 +550,36 @@ func (fr *Frame) callContract(i *ssa.Call, callee *ssa.Function, c *Contract, ar
 			x.assert(g, fmt.Sprintf("%sdecr@%s#%d", site, callee.Name(), k), And(Le(IntLit(0), x.rootDec[0]), Lt(d1, x.rootDec[0])), x.posOf(i.Pos()), "variant decreases at recursive call")
 		}
 	}
+	// pre-state terms (for functional contracts: results and post-states are functions of them)
+	functional := c.Flags["functional"] || c.Flags["pure"]
+	var preTerms []Term
+	if functional {
+		for _, p := range params {
+			t, ok := x.termOfNoEscape(p, st)
+			if !ok {
+				functional = false
+				break
+			}
+			preTerms = append(preTerms, t)
+		}
+	}
 	// havoc
-	for _, mp := range modps {
+	for n, mp := range modps {
 		cur := x.load(mp.p, st)
-		fr.store(mp.p, x.fresh("post_"+callee.Name(), cur.Sort), st, g, i.Pos())
+		var nv Term
+		if functional {
+			name := fmt.Sprintf("fn_%s_post%d", sanitize(callee.Name()), n)
+			decl := "(declare-fun " + name + " ("
+			for _, t := range preTerms {
+				decl += t.Sort.Name + " "
+			}
+			decl += ") " + cur.Sort.Name + ")"
+			x.declareOnce(decl)
+			nv = mk(cur.Sort, name, preTerms...)
+		} else {
+			nv = x.fresh("post_"+callee.Name(), cur.Sort)
+		}
+		fr.store(mp.p, nv, st, g, i.Pos())
 	}
 	if m != nil {
 		for gl := range m.globals {
@@ -545,21 +590,9 @@ func (fr *Frame) callContract(i *ssa.Call, callee *ssa.Function, c *Contract, ar
 	// results
 	var results []Val
 	res := callee.Signature.Results()
-	if c.Flags["pure"] && len(modps) == 0 {
-		var ts []Term
-		okAll := true
-		for _, p := range params {
-			t, ok := x.termOfNoEscape(p, st)
-			if !ok {
-				okAll = false
-				break
-			}
-			ts = append(ts, t)
-		}
-		if okAll {
-			for r := 0; r < res.Len(); r++ {
-				results = append(results, TV{T: x.pureApp(callee, r, ts)})
-			}
+	if functional {
+		for r := 0; r < res.Len(); r++ {
+			results = append(results, TV{T: x.pureApp(callee, r, preTerms)})
 		}
 	}
 	if results == nil {
@@ -619,7 +652,12 @@ func (e *Engine) isCellParam(p *ssa.Parameter) bool {
 func (fr *Frame) specCall(i *ssa.Call, callee *ssa.Function, c *Contract, args []Val, free []Val, st *State, g Term) {
 	x := fr.x
 	e := x.eng
-	if !e.recursive[callee] && len(callee.Blocks) > 0 && !hasLoops(callee) && !(c != nil && c.Flags["pure"] && !e.specFns[callee]) {
+	if c != nil && !e.specFns[callee] && (c.Flags["functional"] || c.Flags["pure"]) {
+		// a real function used inside a specification: its (functional) contract
+		fr.applyContract(i, callee, c, args, st, g, false)
+		return
+	}
+	if !e.recursive[callee] && len(callee.Blocks) > 0 && !hasLoops(callee) {
 		vals, _, _ := x.runFunc(callee, args, free, st, g, fr, fr.prefix, true, nil)
 		fr.setResult(i, vals, st)
 		return
